@@ -18,10 +18,10 @@ P = {
  "C03": ("exploration", "4 C03", "differential monitor against an independent reference decoder; exhaustive short byte strings",
          "Accept/reject, value, consumed length, remainder identity and error kind of the real decoder are compared with a reference decoder written from the specification on every byte string of length <= 3 (quick) / <= 4 (thorough) for the 16-bit varint decoders, all short strings for bool/u8/i8/options, boundary-structured strings for the wider varints, and valid/prefix/corrupted/re-padded/random inputs for random and concrete shapes.",
          "Trusts the reference decoder (validated against the canonicalization and max-length tables of the specification)."),
- "C04": ("exploration", "4 C04", "guard pages + counting allocator + panic monitor + Miri (+ASan in thorough)",
+ "C04": ("exploration", "4 C04", "guard pages + counting allocator + panic monitor + Miri (+ASan and valgrind memcheck in thorough)",
          "Hostile inputs (mutated-valid, random, adversarial length prefixes up to usize::MAX) are decoded with the input flush against PROT_NONE pages on either side, under catch_unwind, with a thread-local counting allocator enforcing the allocation bound and pointer-range monitors on every borrowed str/bytes; the same workload is interpreted by Miri (quick) and run under ASan (thorough).",
          "Guard pages only see accesses that cross a page edge adjacent to the buffer; Miri covers the rest on a smaller workload. The allocation bound constant is justified in DESIGN 4 C04."),
- "C05": ("fault_enumeration", "4 C05", "capacity fault enumeration with guard pages, canaries, Miri (+ASan in thorough)",
+ "C05": ("fault_enumeration", "4 C05", "capacity fault enumeration with guard pages, canaries, Miri (+ASan and valgrind memcheck in thorough)",
          "For every sampled value the buffer-full fault is injected at every byte position (every capacity 0..L+2) for slice storage in plain/COBS/CRC framing and at a menu of const capacities for heapless storage; success iff capacity >= L, exact bytes, untouched tail, buffer-full error, canaries and guard pages intact, serialized_size == L.",
          "Heapless capacities are a const-generic menu, not every integer."),
  "C06": ("exploration", "4 C06", "differential monitor against reference COBS; exhaustive short messages",
@@ -39,7 +39,7 @@ P = {
  "C10": ("fault_enumeration", "4 C10", "corruption fault enumeration against a bit-level reference CRC",
          "Frames for five widths and ten catalogue algorithms are compared with a bit-at-a-time Rocksoft-model CRC (validated against each algorithm's published check value); every single-bit flip, every burst <= width at every offset (exhaustive for widths <= 16, sampled above), truncations and random damage are injected and the soundness invariant is checked on every accepted input.",
          "Trusts the reference CRC (validated against published check values on every run)."),
- "C11": ("fault_enumeration", "4 C11", "I/O fault and schedule enumeration with guard pages, Miri (+ASan, embedded-io 0.4 build in thorough)",
+ "C11": ("fault_enumeration", "4 C11", "I/O fault and schedule enumeration with guard pages, Miri (+ASan, valgrind memcheck, embedded-io 0.4 build in thorough)",
          "Instrumented readers/writers deliver data in 1-byte/random/whole pieces and fail, hit EOF or interrupt at every byte offset; scratch sizes 0..required+1; monitors: equivalence with slice path, exact consumption, disjoint in-order borrows inside scratch, returned remainder, prefix-only writes, flush.",
          "embedded-io 0.4 is exercised only in the thorough tier (features are mutually exclusive, second build)."),
  "C12": ("exploration", "4 C12", "bound monitor over built-in and in-tree-derive MaxSize impls",
@@ -112,7 +112,7 @@ def main():
         ],
         "checks": checks,
         "not_applicable": [{"property_id": pid, "reason": REASON_NOT_BUILT} for pid in sorted(P) if pid not in BUILT],
-        "notes": "Technique family: runtime monitoring and sanitizers. Verdicts are three-valued (exit 0 held / 1 violation / 2 inconclusive). VERIF_SEED seeds all random choices; enumerated sub-spaces do not depend on it. VERIF_STAGES=native,plain,miri,asan,eio04 restricts stages (debugging aid).",
+        "notes": "Technique family: runtime monitoring and sanitizers. Verdicts are three-valued (exit 0 held / 1 violation / 2 inconclusive). VERIF_SEED seeds all random choices; enumerated sub-spaces do not depend on it. VERIF_STAGES=native,plain,miri,asan,memcheck,eio04 restricts stages (debugging aid). Confirmed property-breaking changes used to validate the checks are in /verif/seeded/ (100 changes, all detected; DESIGN.md section 15).",
     }
     with open("/verif/MANIFEST.json", "w") as f:
         json.dump(m, f, indent=1)
